@@ -94,25 +94,25 @@ def check(ctx):
             ctx.fail('C08.3', site, 'decrypt returns %s: neither the decoded plaintext of self\'s encrypted subject nor the node rebuilt over it' % fmt(v), key='C08.3|value')
             continue
         ctx.ok('C08.3', site, 'accept value (%s) = decode(decrypt(key, Encrypted payload of subject(self)))%s' % (kind, ' under the node\'s own assertions' if kind == 'node' else ''), sample=fmt(v))
-        gs = find_terms(b, tb, subject_guard)
-        if not gs:
-            ctx.fail('C08.2', site, 'no comparison of digest(decoded plaintext) with the digest declared by the same message guards this Ok exit', key='C08.2|subject|' + kind)
-        else:
-            ok, info = guard_dominates(b, tb, [bi], subject_guard, call_name(gs[0]) == 'eq')
-            if ok:
-                ctx.ok('C08.2', site, '%s exit dominated by digest(decoded) == declared digest; %s' % (kind, info), sample=fmt(gs[0]))
-            else:
-                ctx.fail('C08.2', site, '%s exit not dominated by the plaintext digest check: %s' % (kind, info), key='C08.2|subject|' + kind)
-        if kind == 'node':
-            gs = find_terms(b, tb, node_guard)
+        # subject exit: the plaintext digest check is required.  node exit: either check suffices, because with C01.2
+        # digest(node(decoded, A)) == stored node digest  <=>  digest(decoded) == declared digest of the encrypted subject.
+        verdicts = []
+        for gname, g in (('digest(decoded) == declared digest', subject_guard), ('digest(rebuilt node) == stored node digest', node_guard)):
+            if gname.startswith('digest(rebuilt') and kind != 'node':
+                continue
+            gs = find_terms(b, tb, g)
             if not gs:
-                ctx.fail('C08.2', site, 'no comparison of digest(rebuilt node) with the node\'s stored digest guards the node exit', key='C08.2|node')
-            else:
-                ok, info = guard_dominates(b, tb, [bi], node_guard, call_name(gs[0]) == 'eq')
+                verdicts.append((False, gname, 'no such comparison found'))
+                continue
+            ok, info = guard_dominates(b, tb, [bi], g, call_name(gs[0]) == 'eq')
+            verdicts.append((ok, gname, info))
+        if any(v[0] for v in verdicts):
+            for ok, gname, info in verdicts:
                 if ok:
-                    ctx.ok('C08.2', site, 'node exit dominated by digest(rebuilt node) == stored node digest; %s' % info, sample=fmt(gs[0]))
-                else:
-                    ctx.fail('C08.2', site, 'node exit not dominated by the node digest check: %s' % info, key='C08.2|node')
+                    ctx.ok('C08.2', site, '%s exit dominated by %s; %s' % (kind, gname, info))
+        else:
+            ctx.fail('C08.2', site, '%s exit is not dominated by a check that the decrypted content hashes to the digest the ciphertext declares: %s'
+                     % (kind, '; '.join('%s: %s' % (v[1], v[2]) for v in verdicts)), key='C08.2|' + kind)
     # missing declared digest is an Err exit: the declared term goes through ok_or(..)? / a None test
     decl = find_terms(b, tb, lambda x: x[0] == 'call' and call_name(x) in ('opt_digest',) and is_message(x[2][0]))
     if decl:
